@@ -13,13 +13,14 @@ typedef struct {
   V1 _inv_diag, _diag;  /* member vectors */
   V1 _aux1, _aux2, _aux3;
   V1 _omega;
+  V1 _vec_prim, _vec_dual, _volume, _sol_mean; bool prim_empty;   /* MeanFilter */
   Index _m;
   V1 x, b;              /* the vec_cor / vec_def arguments */
 } SELF_T;
 #define vec_cor (self->x)
 #define vec_def (self->b)
 #define UFTAB(n) extern const V1 n[__CPROVER_constant_infinity_uint]
-UFTAB(T_CPROD); UFTAB(T_CINV); UFTAB(T_DIAG); UFTAB(T_MATAPP); UFTAB(T_FCOR); UFTAB(T_FDEF); UFTAB(T_SCALE); UFTAB(T_AXPY); UFTAB(T_ADD);
+UFTAB(T_CPROD); UFTAB(T_CINV); UFTAB(T_DIAG); UFTAB(T_MATAPP); UFTAB(T_FCOR); UFTAB(T_FDEF); UFTAB(T_SCALE); UFTAB(T_AXPY); UFTAB(T_ADD); UFTAB(T_DOT); UFTAB(T_DIV);
 #define UF1(T, a)    (T[(unsigned)(V1)(a)])
 #define UF2(T, a, b) (T[((unsigned)(V1)(a) << 8) | (unsigned)(V1)(b)])
 #define UF3(T, a, b, c) (T[((unsigned)(V1)(a) << 16) | ((unsigned)(V1)(b) << 8) | (unsigned)(V1)(c)])
@@ -32,4 +33,6 @@ UFTAB(T_CPROD); UFTAB(T_CINV); UFTAB(T_DIAG); UFTAB(T_MATAPP); UFTAB(T_FCOR); UF
 #define SCALE(x, s)   UF2(T_SCALE, x, s)      /* r.scale(x, s): r = s x                                    (C04 scale)             */
 #define AXPY(r, x, s) UF3(T_AXPY, r, x, s)    /* r.axpy(x, s): r = r + s x                                 (C04 axpy)              */
 #define ADD(r, x)     UF2(T_ADD, r, x)        /* r.axpy(x):    r = r + x                                                           */
+#define DOT(a, b)     UF2(T_DOT, a, b)        /* a.dot(b)                                                  (C04 dot)               */
+#define DIVT(a, b)    UF2(T_DIV, a, b)        /* scalar quotient a / b (any division)                                              */
 #endif
